@@ -83,6 +83,18 @@ CHECKS = {
         design_ref="§6 C15",
         note="three engines (one SQL, two iteration); locked nodes are materializations and leaves",
     ),
+    "C07": dict(
+        technique="TLA+ spec ProcHistory (TLC exhaustive: trees x histories of process/reprocess/execute/attach over an abstract payload state machine) + conformance replay into the real Processor with a real SQLite<->iteration hook implementation; plus the MultiEngine replay (every tree processed and executed)",
+        text="TLC enumerates trees over a SQL or iteration source (<=3 quick / <=4 thorough building calls: operations, transfers among three engines, up to two materializations incl. directly after a transfer, chains with a statically empty leaf, chains of the tree with itself sharing its materialization nodes, zero-column branches) and every history of <=2 (quick) / <=3 (thorough) process / process-the-result-again / iteration execute / attach_payload actions, on an abstract state machine of payload cells. Every history is replayed into the real Processor (hooks implemented for real with SQLite temp tables and RowSequence): rows of the processed tree vs TLC's reference rows, structure of the input tree before/after, transfers of the input tree never payloaded, materializations payloaded exactly as the abstract machine says with the rows of their upstream, same columns/engine, hooks never called for statically empty/identity relations and always on sources that really evaluate.",
+        design_ref="§6 C07",
+        note="open finding F8 (SQL materialization whose upstream is rebuilt by process()) excluded by matcher+signature; the as-coded transcription of _process_recursive (hook-call prediction) is not part of the model: conformance is to the abstract payload machine",
+    ),
+    "C10": dict(
+        technique="TLA+ spec ProcHistory: action property WriteOnce and invariant EvalOnce on the abstract payload machine (TLC) + conformance replay (payload object identity across the history, TypeError on illegal attach, leaf iteration counts)",
+        text="On the ProcHistory state machine TLC checks [][payload set => unchanged]_vars and evals[m] <= 1 for every history. The replay performs each history for real and checks after every step that each materialization's payload, once set, stays the identical object; that attach_payload succeeds only on an empty marker and raises TypeError (changing nothing) on leaves, operation relations and filled markers; that payload rows equal the upstream's content; and that the counting leaf below the materializations is iterated no more often than evaluating every shared materialization's upstream once requires, over the whole history (process twice, execute after process, two branches sharing one materialization).",
+        design_ref="§6 C10",
+        note="iteration-sourced trees carry the counting leaf; SQL-sourced trees are checked for write-once/TypeError/content only; F8 excluded as for C07",
+    ),
     "C04": dict(
         technique="TLA+ spec OpPairs (TLC exhaustive over operation pairs x targets) + real commute() answers judged by TLC (TracePairs)",
         text="TLC enumerates every ordered pair (existing, new) over the operation menus (calculation, all projections, 10 predicates, deduplication, 9+21 sort-term lists, 7+45 slices) and proves the commutation law on the code-shaped Commute rules for all 85 targets (<=3 rows over a,b in 0..1); for every pair the REAL new.commute(existing) is called and its answer (first, second, done) is handed back to TLC, which interprets it with the reference semantics over every target: a sound answer that differs from the model passes (reported as drift), an unsound one is a violation. Companion configurations re-derive findings F2 (open), F10 and F6 (fixed) as TLC counterexamples.",
